@@ -19,6 +19,7 @@ type evalCtx struct {
 	callee string // non-empty: identifiers resolve through names and package scope only
 	bound  []string
 	region *State // state at the last lock acquisition (for old@region)
+	head   *State // state at the head of the enclosing loop (for atHead)
 }
 
 func (c *evalCtx) child() *evalCtx {
@@ -513,6 +514,20 @@ func (fr *Frame) evalCall(e *CExpr, ctx *evalCtx) *Val {
 		fr.withState(ctx.old, func() {
 			out = fr.eval1(args[0], &c)
 			// a location must be read in the old state, not later
+			if out.loc != nil && out.t == "" && !isSyncType(out.loc.typ) {
+				out = fr.load(out.loc)
+			}
+		})
+		return out
+	case "atHead":
+		if ctx.head == nil {
+			efail("atHead() is only available in latch clauses")
+		}
+		c := *ctx
+		c.st = ctx.head
+		var out *Val
+		fr.withState(ctx.head, func() {
+			out = fr.eval1(args[0], &c)
 			if out.loc != nil && out.t == "" && !isSyncType(out.loc.typ) {
 				out = fr.load(out.loc)
 			}
